@@ -338,9 +338,10 @@ def run_case(case, ctx):
 
 
 def do_truncate(ctx, t, data, lay):
-    loaders = ["tskit.load", "TableCollection.load"]
+    loaders = list(LOADERS)  # eager and lazy (skip_tables / skip_reference_sequence) read paths
     for n in range(len(data)):
-        ld = loaders[n % 2] if n > 200 else None
+        # every loader near both ends of the file (header / last item), one loader in rotation elsewhere
+        ld = loaders[n % len(loaders)] if 200 < n < len(data) - 80 else None
         for loader in ([ld] if ld else loaders):
             ctx.step(f"truncate to {n} of {len(data)} bytes; {loader}")
             st, obj = t.load(data[:n], loader)
